@@ -85,6 +85,22 @@ Proof.
   intros sess sched s. apply (can_finish_without_bg sess (mu sess s) s); [apply le_n|apply InvN_run].
 Qed.
 
+(* The disconnect: once the connection has been cancelled (EOF / Close()) and until DISCONNECTED
+   has been dispatched to completion, some NON-background thread is enabled in every reachable
+   state — closeIf waits only for the loop (which leaves between dispatches) and DISCONNECTED's
+   foreground handlers; with C16_measure (the closer's steps decrease mu too) a background handler
+   that never returns cannot keep DISCONNECTED from being delivered.  Its placement after every
+   foreground invocation is C03_all_schedules (= C16_later_events_in_order). *)
+Theorem C16_disconnect_not_blocked_by_background : forall sess sched,
+  let s := run (step sess) init sched in
+  cpc s = CWait \/ cpc s = CDisp ->
+  exists t, is_bg t = false /\ step sess s t <> None.
+Proof.
+  intros sess sched s H. apply (closer_progress sess s); auto.
+  - apply InvN_run.
+  - apply InvK_run.
+Qed.
+
 (* non-vacuity: the run of DispatchExamples — one of two foreground handlers of line 0 panics, the
    background handler of line 0 never returns, all three lines are delivered *)
 Example C16_nonvacuous :
@@ -112,3 +128,4 @@ Print Assumptions C16_progress.
 Print Assumptions C16_measure.
 Print Assumptions C16_bound.
 Print Assumptions C16_delivery_without_background.
+Print Assumptions C16_disconnect_not_blocked_by_background.
